@@ -15,6 +15,10 @@ BASELINE = os.path.join(os.path.dirname(os.path.abspath(__file__)), "refusals_ba
 
 ERR_CALLS = ("io::Error::new", "io::Error::other", "io::Error::from", "anyhow::Error::msg", "anyhow::__private::format_err", "anyhow::Error::new", "Error::msg")
 
+# variants that only wrap an error made elsewhere (`Io(io::Error)`): wrapping is propagation — `?` through `From`, `map_err(AnyTlsError::Io)` and
+# `map_err(|e| AnyTlsError::Io(e))` are three spellings of it; a fresh io::Error is counted where `io::Error::new/other` makes it
+WRAPPERS = ("Io",)
+
 MODULES = {
     "C01": ("session::", "client::socks5", "client::http_proxy", "server::handler", "protocol::codec"),
     "C02": ("session::", "protocol::codec"),
@@ -65,10 +69,18 @@ def table(P):
                 k = st["rv"]["kind"]
                 adt = str(k.get("adt", ""))
                 # (a bare `Err(e)` is not counted: `Err(e) => return Err(e)` and `?` are two spellings of one propagation)
-                if adt.endswith("AnyTlsError"):
+                if adt.endswith("AnyTlsError") and k.get("variant") not in WRAPPERS:
                     kind = "AnyTlsError::%s" % k.get("variant")
                     row[kind] = row.get(kind, 0) + 1
             t = blk["term"]
+            # `map_err(AnyTlsError::Io)`: the variant constructor handed over as a function is a construction site too
+            if t["t"] == "call" and not span_is_tracing(blk["tspan"]):
+                for a in t["args"]:
+                    if a.get("o") == "const" and a["c"]["ty"].get("k") == "fndef":
+                        d_ = str(a["c"]["ty"].get("def", ""))
+                        if "AnyTlsError::" in d_ and not d_.endswith(("::from", "::fmt", "::source")) and d_.split("::")[-1] not in WRAPPERS:
+                            kind = "AnyTlsError::%s" % d_.split("::")[-1]
+                            row[kind] = row.get(kind, 0) + 1
             if t["t"] == "call" and not span_is_tracing(blk["tspan"]):
                 fn = (t["func"].get("c", {}) or {}).get("fn") or ""
                 for e in ERR_CALLS:
